@@ -9,7 +9,7 @@
 #   brokerclient real _KafkaBrokerClient under simnet (virtual clock, puppet endpoints, recording transports) driven by
 #                generated histories of makeRequest / cancel / connect ok-fail / data in any chunking / loss / timer /
 #                close / disconnect / updateMetadata incl. late, duplicate, unsolicited frames and disabled events;
-#                exhaustive enumeration of all enabled sequences over a 13-event alphabet (depth 5 quick, 7 thorough)
+#                exhaustive enumeration of all enabled sequences over a 13-event alphabet (depth 6 quick, 7 thorough)
 import random
 import struct
 
@@ -118,8 +118,11 @@ def run(ck):
         items = L.generate(ck, rnd, 300, ["c06"], [400, 800])
         L.evaluate(ck, "long generated histories (400-800 events)", items, WHICH, THEOREMS_BC, L.nontrivial_c06, rnd)
 
+    # ---- callbacks re-entering the client from a reply callback (tail position of handleResponse)
+    L.reentrant_part(ck, rnd, 500 * scale, THEOREMS_BC)
+
     # ---- exhaustive small scope
-    L.exhaustive(ck, 7 if thorough else 5, "whole", WHICH, THEOREMS_BC, rnd)
+    L.exhaustive(ck, 7 if thorough else 6, "whole", WHICH, THEOREMS_BC, rnd)
     if thorough:
         L.exhaustive(ck, 6, "split", WHICH, THEOREMS_BC, rnd)
         ck.coqchk(["AV.Props.C06"])
@@ -137,7 +140,7 @@ def run(ck):
         "hand-written Gallina models: Model/Framing.v stands for twisted.protocols.basic.IntNStringReceiver.dataReceived/sendString as configured by afkak/_protocol.py:32-60, KafkaBootstrapProtocol (_protocol.py:63-140) and KafkaCodec.get_response_correlation_id; Model/BrokerClient.v for afkak/brokerclient.py:44-79,148-462. The tie is this run's differential correspondence, not a proof",
         "Twisted (Deferred fire-once/cancel semantics, Clock, IntNStringReceiver) is exercised by the correspondence, not verified; Deferred semantics are summarised in the model as a fire-once cell (AlreadyCalledError = OErr, proved unreachable)",
         "request payload bytes are outside the model (a request is identified by correlation id and handle); sendString/transport.write are assumed not to raise (requests < 4 GiB), so brokerclient.py:370-373 is not modelled",
-        "user callbacks that re-enter the client synchronously from a Deferred callback, and endpoints whose connect() completes synchronously, are outside the model (argued equal to the next event in Model/BrokerClient.v header)",
+        "user callbacks that re-enter the client synchronously are outside the model's alphabet: for callbacks of reply-expecting requests (fired in tail position of handleResponse) this run checks on the real code that the re-entrant call equals the same call as the next event (reentrant_part); the callback of a NO-REPLY request fires in the middle of _sendQueued and re-entering from it is not covered (finding F-C10-1, probed by C10); endpoints whose connect() completes synchronously are checked the same way by C10 (sync_connect_part)",
         "the paused flag of IntNStringReceiver and the `recvd` compatibility attribute are not modelled (afkak never sets them)",
         "events the environment cannot produce (no transport / attempt / timer / Deferred to act on) are no-ops in the model; the driver checks the implementation side produces no output for them either",
         "extraction: ExtrOcamlBasic only; Z/positive/nat stay Coq datatypes; sample re-evaluated in Coq by vm_compute (the exhaustive enumeration is compared against the extracted runner only)",
@@ -150,6 +153,8 @@ def replay(rp):
     op = rp.get("replay_op")
     if op == "bc":
         return L.replay_bc(rp)
+    if op == "bc-hook":
+        return L.replay_hook(rp)
     if op == "rx":
         chunks = [bytes(c) for c in rp["chunks"]]
         tr, calls = F.impl_receiver(chunks)
